@@ -742,6 +742,10 @@ func (rn *runner) runPar(pj *parJob) {
 				fmt.Printf("note: par %s/%s: child died in the parallel phase (%s %s)\n", pj.name, pj.cfg.Label, kind, msg)
 				return
 			}
+			if poolClassCrash(r.Stderr) {
+				rn.notePoolClass("concurrency clause", pj.name+"/"+pj.cfg.Label, r.Stderr, wit(map[string]any{"events": len(alive)}))
+				return
+			}
 			jj := &job{name: pj.name}
 			sig := fmt.Sprintf("plugin=%s concurrency=crash kind=%s msg=%s at=%s", sigPlugin(jj, r.Stderr, at), kind, msg, at)
 			fmt.Printf("finding: %s [config %s]\n", sig, pj.cfg.Label)
